@@ -154,6 +154,18 @@ def run(ctx: Ctx) -> None:
             meta[f"gen:{seed}"] = g
             if {"call", "explicit-order", "nonlocal-wire", "conditional", "cfg:diamond", "tail-loop"} & g.features:
                 ctx.nontriv(seed)
+        # module-rooted programs of the builder state machine (random walks of HugrBuilder.tla replayed on the real builders)
+        from . import builder_model
+        mh = builder_model.model_hugrs(wd, ctx.seed, 12 if quick else 120)
+        for name, h, hist in mh[: (150 if quick else 3000)]:
+            try:
+                pairs.append(pair(name, h))
+                ctx.nontriv(name)
+            except Exception as e:  # noqa: BLE001
+                ctx.violation({"check": f"export raised {type(e).__name__}"}, {"builder_program": hist}, "to_model() succeeds", repr(e)[:300], clause="export", leg="C2S")
+        ctx.note("builder_model_programs_exported", len(mh))
+        if len(mh) < 20:
+            raise MachineryError(f"only {len(mh)} programs from the builder model")
         from ..catalog import modules
         for name, h in modules():
             try:
